@@ -30,12 +30,26 @@
 (*   Inverse:adjugate     - Inverse() * det is the adjugate, entry by entry *)
 (*   Inverse:identity     - |M * Inverse() - I| <= 1e-9                     *)
 (*   MulColumnInv:adjugate- MulColumnInv(c, det) * det = adj(M) c           *)
-(*   SVD:reconstruct      - |U S V^T - M| <= 1e-9; 4x4 with a repeated      *)
-(*                          singular value (ill-conditioned, see the        *)
-(*                          library's own test): <= 1e-3                    *)
-(*   SVD:orthonormal      - |U^T U - I|, |V^T V - I| <= 1e-9                *)
-(*   SVD:invariants       - S diagonal, sum s_i^2 = sum M_ij^2 and          *)
-(*                          prod s_i = |det M| (well-conditioned only)      *)
+(*   SVD:reconstruct      - |U S V^T - M| <= 1e-9 (4x4: 1e-6; it goes       *)
+(*                          through a numerically found quartic root and a  *)
+(*                          random basis completion) for a non-singular M   *)
+(*                          with                                            *)
+(*                          distinct singular values (M^T M has a           *)
+(*                          squarefree characteristic polynomial; decided   *)
+(*                          here by a gcd modulo small primes)              *)
+(*   SVD:reconstruct-degenerate - otherwise                                 *)
+(*                          (a zero or repeated singular value is the       *)
+(*                          square root of a rounded eigenvalue of M^T M,   *)
+(*                          good to 1e-8 only): <= 1e-6 for 2x2 and 3x3,    *)
+(*                          <= 1e-3 for 4x4 (the library's own test         *)
+(*                          accepts 1e-4 there), U and V orthonormal to the *)
+(*                          same tolerance                                  *)
+(*   SVD:orthonormal      - |U^T U - I|, |V^T V - I| within the same        *)
+(*                          tolerance, under the same condition             *)
+(*   SVD:invariants       - given the two clauses above: S diagonal, sum    *)
+(*                          s_i^2 = sum M_ij^2 and prod s_i = |det M| (so   *)
+(*                          no negative "singular value"; well-conditioned  *)
+(*                          only)                                           *)
 (*   SVD:sorted           - s1 >= s2 >= ...  (documented, but not part of   *)
 (*                          the property: reported, not enforced)           *)
 (*   Eigenvalues:charpoly - the elementary symmetric functions of the       *)
@@ -52,11 +66,17 @@
 (*                cos, and the turn is right-handed                         *)
 (* fam "linsolve": [sub, site, A, X, B, outcome, got, exact, resid, tolOK,  *)
 (*              hasFwd, fwd, fwdEx]                                         *)
-(*   input      - B = A X in integers (and A symmetric for Cholesky)        *)
-(*   terminates - no panic / hang                                           *)
-(*   solution   - the returned x is within 1e-6 of the integer X            *)
-(*   residual   - |A x - B| <= 1e-6                                         *)
-(*   tolerance  - BiCGSTABSolver: mean |A x - b| below MAETolerance         *)
+(*   input      - B = A X in integers (A symmetric, strictly diagonally     *)
+(*                dominant, positive diagonal for Cholesky)                 *)
+(*   terminates - no panic / hang.  BiCGSTAB on a non-symmetric system may  *)
+(*                break down (inherent to the method): it is run with an    *)
+(*                iteration limit and its own "NaN detected" panic is       *)
+(*                accepted there                                            *)
+(*   solution   - the returned x is within 1e-6 of the integer X (BiCGSTAB  *)
+(*                on a non-symmetric system: only if it met its tolerance)  *)
+(*   residual   - |A x - B| <= 1e-6 (same condition)                        *)
+(*   tolerance  - BiCGSTABSolver on an SPD system: mean |A x - b| below     *)
+(*                MAETolerance on return                                    *)
 (*   apply      - SparseCholesky.ApplyVec(X) = B                            *)
 (* fam "search": [site, dim, lo, hi, stops, rec, iters, q, sense, obj,      *)
 (*              cells, vals, retCell, retVal, hasRep, repVal, repEx,        *)
@@ -132,7 +152,12 @@ Squarefree(poly) == \E p \in {101, 103, 107, 109} : Len(GcdMod(Trim(poly, p), Tr
 Rn == R.n
 RM == R.M
 RD == Det(RM, Rn)
-WellCond == Rn <= 3 \/ Squarefree(CharPoly(MatMul(MatT(RM, Rn), RM, Rn), Rn))
+\* well-conditioned for the SVD (which goes through the eigenvalues of M^T M, so a zero singular value is only
+\* accurate to sqrt(machine epsilon), and so is the split of a repeated one): non-singular with distinct singular values
+WellCond == RD # 0 /\ Squarefree(CharPoly(MatMul(MatT(RM, Rn), RM, Rn), Rn))
+\* 4x4: the decomposition goes through a numerically found root of a quartic and a randomly completed basis; two
+\* close singular values already cost several digits (the library's own test asks for 1e-8 on a generic matrix)
+TolWell == IF Rn <= 3 THEN -9 ELSE -6
 MatHolds(c) ==
     CASE c = "panic" -> R.panic = ""
       [] c = "Det:exact" -> R.panic = "" => (R.detEx /\ R.det = RD)
@@ -141,15 +166,18 @@ MatHolds(c) ==
       [] c = "Inverse:identity" -> (R.panic = "" /\ R.hasInv) => R.invErr <= -9
       [] c = "MulColumnInv:adjugate" -> (R.panic = "" /\ R.hasInv) =>
                                            (R.sdet = RD /\ R.mciEx /\ R.mci = MatVec(Adj(RM, Rn), Rn, R.mciC))
-      [] c = "SVD:reconstruct" -> (R.panic = "" /\ R.hasSvd) => R.svdRecon <= (IF WellCond THEN -9 ELSE -3)
-      [] c = "SVD:orthonormal" -> (R.panic = "" /\ R.hasSvd) => R.svdOrtho <= -9
-      [] c = "SVD:invariants" -> (R.panic = "" /\ R.hasSvd /\ WellCond) =>
+      [] c = "SVD:reconstruct" -> (R.panic = "" /\ R.hasSvd /\ WellCond) => R.svdRecon <= TolWell
+      [] c = "SVD:reconstruct-degenerate" -> (R.panic = "" /\ R.hasSvd /\ ~WellCond) =>
+                                                LET tol == IF Rn <= 3 THEN -6 ELSE -3 IN R.svdRecon <= tol /\ R.svdOrtho <= tol
+      [] c = "SVD:orthonormal" -> (R.panic = "" /\ R.hasSvd /\ WellCond) => R.svdOrtho <= TolWell
+      [] c = "SVD:invariants" -> (R.panic = "" /\ R.hasSvd /\ WellCond /\ R.svdRecon <= -9 /\ R.svdOrtho <= -9) =>
                                     (R.svdDiag <= -9 /\ R.svdPEx /\ R.svdP = <<Frob2(RM), Abs(RD)>>)
       [] c = "SVD:sorted" -> (R.panic = "" /\ R.hasSvd /\ WellCond) => R.svdSorted
       [] c = "Eigenvalues:charpoly" -> (R.panic = "" /\ R.hasEig) =>
                                           (R.eigEx /\ R.eigIm <= -6 /\ R.eig = [k \in 1..Rn |-> ESym(RM, Rn, k)])
       [] c = "CharPoly:exact" -> (R.panic = "" /\ R.hasChar) => (R.charEx /\ R.char = CharPoly(RM, Rn))
 MatClauses == {"panic", "Det:exact", "Inverse:adjugate", "Inverse:identity", "MulColumnInv:adjugate", "SVD:reconstruct",
+               "SVD:reconstruct-degenerate",
                "SVD:orthonormal", "SVD:invariants", "SVD:sorted", "Eigenvalues:charpoly", "CharPoly:exact"}
 
 RotExpected == CASE R.sub = "rot2" -> QuarterTurns2(R.aux[2])
@@ -168,13 +196,22 @@ RotClauses == {"panic", "exact", "orthogonal", "det", "axis", "trace", "handed"}
 ---------------------------------------------------------------------------
 MulRows(A, X) == [i \in 1..Len(A) |-> [c \in 1..Len(X[1]) |-> Sum([k \in 1..Len(X) |-> A[i][k] * X[k][c]])]]
 LinOk == R.outcome = "ok"
+\* symmetric and strictly diagonally dominant with a positive diagonal: positive definite, so neither Cholesky
+\* nor BiCGSTAB (which is then conjugate gradients in disguise) can break down
+Spd(A) == /\ \A i, j \in 1..Len(A) : A[i][j] = A[j][i]
+          /\ \A i \in 1..Len(A) : A[i][i] > Sum([j \in 1..Len(A) |-> IF j = i THEN 0 ELSE Abs(A[i][j])])
+IsBicg == R.sub = "bicg"
+\* a non-symmetric system is run with an iteration limit; only an answer that claims convergence is judged
+Claimed == LinOk /\ (IsBicg => (Spd(R.A) \/ R.tolOK))
 LinHolds(c) ==
     CASE c = "input" -> /\ MulRows(R.A, R.X) = R.B
-                        /\ R.sub = "chol" => \A i, j \in 1..Len(R.A) : R.A[i][j] = R.A[j][i]
-      [] c = "terminates" -> LinOk
-      [] c = "solution" -> LinOk => (R.exact /\ R.got = R.X)
-      [] c = "residual" -> LinOk => R.resid <= -6
-      [] c = "tolerance" -> (LinOk /\ R.sub = "bicg") => R.tolOK
+                        /\ R.sub = "chol" => Spd(R.A)
+                        /\ IsBicg => (R.maxIt = 0 <=> \A i, j \in 1..Len(R.A) : R.A[i][j] = R.A[j][i])
+      [] c = "terminates" -> IF IsBicg /\ ~Spd(R.A) THEN LinOk \/ (R.outcome = "panic" /\ R.panic = "NaN detected during solving")
+                             ELSE LinOk
+      [] c = "solution" -> Claimed => (R.exact /\ R.got = R.X)
+      [] c = "residual" -> Claimed => R.resid <= -6
+      [] c = "tolerance" -> (LinOk /\ IsBicg /\ Spd(R.A)) => R.tolOK
       [] c = "apply" -> (LinOk /\ R.sub = "chol") => (R.hasFwd /\ R.fwdEx /\ R.fwd = R.B)
 LinClauses == {"input", "terminates", "solution", "residual", "tolerance", "apply"}
 
